@@ -170,10 +170,18 @@ def check(ctx, args):
                 n_fail += 1
                 failing_idx.add(idx)
                 f = o.split(" ", 2)
-                ctx.fail(f[1], f[2][:600] if len(f) > 2 else "", {
-                    "case": c[:3000], "observed": (impl_lines[idx] if idx < len(impl_lines) else "")[:3000],
-                    "detail": f[2][:2000] if len(f) > 2 else "",
-                    "how": "vh c12 oracle < case : the property read on the real ResourceSemaphore / MaxJobsSemaphore / LocalJobManager"})
+                detail = f[2] if len(f) > 2 else ""
+                rep = {"case": c[:3000],
+                       "implementation_trace": (impl_lines[idx] if idx < len(impl_lines) else "")[:3000],
+                       "state_when_violated": detail[:2000],
+                       "how": "vh c12 oracle < case : the property read on the implementation's own trace (real ResourceSemaphore / MaxJobsSemaphore / LocalJobManager), independent of the model"}
+                m = re.match(r'op (\d+) ', detail)
+                if m and c[:1] in "sm":
+                    k = int(m.group(1))
+                    toks = c.split()
+                    rep["failing_op_index"] = k
+                    rep["op_sequence_up_to_violation"] = " ".join(toks[:3 + k])
+                ctx.fail(f[1], detail[:600], rep)
             else:
                 n_skip += 1
     # a correspondence mismatch that the oracle does not explain is reported
